@@ -118,4 +118,18 @@ theorem flatMap_sent_sends (ds : List Bytes) :
   | nil => rfl
   | cons d ds ih => simp [PyCraft.Op.sent, ih]
 
+theorem nodup_map_on {α β : Type} (f : α → β) : ∀ (l : List α),
+    (∀ a ∈ l, ∀ b ∈ l, f a = f b → a = b) → l.Nodup → (l.map f).Nodup := by
+  intro l
+  induction l with
+  | nil => intro _ _; simp
+  | cons a l ih =>
+    intro hinj hn
+    rw [List.nodup_cons] at hn
+    rw [List.map_cons, List.nodup_cons]
+    refine ⟨fun hm => ?_, ih (fun x hx y hy h => hinj x (by simp [hx]) y (by simp [hy]) h) hn.2⟩
+    obtain ⟨b, hb, hfb⟩ := List.mem_map.mp hm
+    have : b = a := hinj b (by simp [hb]) a (by simp) hfb
+    exact hn.1 (this ▸ hb)
+
 end PyCraft.Writers
